@@ -36,6 +36,18 @@ type flowParams struct {
 	Blocked  []string `json:"blocked"` // connectors whose ack gate is never granted (unresponsive plugin)
 	Restart  bool     `json:"restart"` // start the pipeline again after the stop completed
 	Retries  int      `json:"max_retries"`
+	Procs    []procParam `json:"procs"`
+}
+
+// procParam describes one scripted processor of the scenario.
+type procParam struct {
+	ID      string   `json:"id"`
+	Parent  string   `json:"parent"` // "" pipeline, else connector id
+	Workers int      `json:"workers"`
+	Gate    bool     `json:"gate"`
+	Menu    []string `json:"menu"`
+	Kinds   []string `json:"kinds"` // result kind per record index (default pass)
+	Cond    string   `json:"cond"`
 }
 
 func (p flowParams) name() string {
@@ -58,6 +70,12 @@ func (p flowParams) name() string {
 	}
 	if p.Retries != 0 {
 		n += fmt.Sprintf("/retries%d", p.Retries)
+	}
+	for _, pr := range p.Procs {
+		n += fmt.Sprintf("/proc=%s@%s.w%d.g%v.%s", pr.ID, pr.Parent, pr.Workers, pr.Gate, strings.Join(pr.Kinds, ""))
+		if len(pr.Menu) > 0 {
+			n += "." + strings.Join(pr.Menu, ",")
+		}
 	}
 	return n
 }
@@ -84,6 +102,9 @@ func (p flowParams) topology() stack.Topology {
 	}
 	t.DLQ = &fakes.DestScript{Name: "dlq", AckMenu: dlqMenu}
 	t.DLQWindow, t.DLQThreshold = p.Window, p.Thresh
+	for _, pr := range p.Procs {
+		t.Procs = append(t.Procs, stack.ProcSpec{ID: pr.ID, Plugin: pr.ID, Parent: pr.Parent, Workers: pr.Workers, Condition: pr.Cond})
+	}
 	return t
 }
 
@@ -108,7 +129,17 @@ func flowScenario(p flowParams) verifkit.Scenario {
 					rec.MaxRetries = 0
 				}
 			}
-			st, err := stack.New(x.W, plugins, nil, stack.Options{Engine: engineOf(p.Engine), PersisterBundle: p.Bundle, FaultCommits: p.Faults, FaultSets: p.Faults, Recovery: rec})
+			procs := fakes.NewProcs(x.W)
+			for _, pr := range p.Procs {
+				pr := pr
+				procs.Add(fakes.ProcScript{Name: pr.ID, Gate: pr.Gate, Menu: pr.Menu, KindOf: func(_ string, idx, _ int) string {
+					if idx >= 0 && idx < len(pr.Kinds) {
+						return kindName(pr.Kinds[idx])
+					}
+					return "pass"
+				}})
+			}
+			st, err := stack.New(x.W, plugins, nil, stack.Options{Engine: engineOf(p.Engine), ProcPlugins: procs, PersisterBundle: p.Bundle, FaultCommits: p.Faults, FaultSets: p.Faults, Recovery: rec})
 			if err != nil {
 				panic(err)
 			}
@@ -181,6 +212,22 @@ func flowScenario(p flowParams) verifkit.Scenario {
 	}
 }
 
+func kindName(k string) string {
+	switch k {
+	case "p", "":
+		return "pass"
+	case "f":
+		return "filter"
+	case "e":
+		return "error"
+	case "2":
+		return "split2"
+	case "3":
+		return "split3"
+	}
+	return k
+}
+
 func errStr(err error) string {
 	if err == nil {
 		return "nil"
@@ -244,10 +291,18 @@ func TestVerifFlow(t *testing.T) {
 		t.Fatalf("no flow scenarios registered for %q", prop)
 	}
 	deadline := verifkit.Deadline(150*time.Second, 25*time.Minute)
+	defer func() { rep.Extra("restart_runs_on_distinct_crash_images", restartRuns) }()
 	for _, sc := range list {
 		scn := flowScenario(sc.p)
 		inner := scn.Check
-		scn.Check = func(x *verifkit.Exec) []verifkit.Violation { return filterFor(prop, inner(x)) }
+		params := sc.p
+		scn.Check = func(x *verifkit.Exec) []verifkit.Violation {
+			vs := inner(x)
+			if prop == "C03" {
+				vs = append(vs, checkRestarts(t, rep, params, x)...)
+			}
+			return filterFor(prop, vs)
+		}
 		e := &verifkit.Explorer{T: t, Rep: rep, Scn: scn, MaxBound: sc.bound(), Deadline: deadline}
 		e.Explore()
 	}
@@ -258,7 +313,7 @@ func TestVerifFlow(t *testing.T) {
 func filterFor(prop string, vs []verifkit.Violation) []verifkit.Violation {
 	var out []verifkit.Violation
 	for _, v := range vs {
-		if prop == "SMOKE" || strings.HasPrefix(v.Key, prop+"/") || strings.HasPrefix(v.Key, "harness/") || (strings.HasPrefix(v.Key, "hang/") && (prop == "C09" || prop == "C11" || prop == "C12" || prop == "C06")) {
+		if prop == "SMOKE" || prop == "PROC" || strings.HasPrefix(v.Key, prop+"/") || strings.HasPrefix(v.Key, "harness/") || (strings.HasPrefix(v.Key, "hang/") && (prop == "C09" || prop == "C11" || prop == "C12" || prop == "C06")) {
 			out = append(out, v)
 		}
 	}
